@@ -17,7 +17,8 @@ ID = "C12"
 LEVEL = "exploration"
 RULE = ("a case is (scripts for up to 3 connections on one sid over {config, upload, search, close}, a schedule = sequence of choices "
         "among the enabled events open(c) / step(c) / release(cleanup delay) / timeout (a wait_for the server armed expires; absent unless the code arms one) "
-        "/ noise (once per schedule: 130-300 connections of OTHER services open on the same server)); the harness owns every event: the server's "
+        "/ noise (once per schedule: 130-1100 connections of OTHER services open on the same server) / noise_close (one of them closes, its "
+        "cleanup pause becomes one more pending release)); the harness owns every event: the server's "
         "timing sources (asyncio.sleep and wait_for timeouts in the server modules) are a gate and a timer controller driven by the schedule, the transport is an in-memory duplex with the "
         "exact websocket surface the server uses, and the loop is run to quiescence after every event. Oracle (history "
         "invariants): (S) no config/upload/result reply reaches connection j while an earlier-opened connection is neither closed "
@@ -81,6 +82,7 @@ async def execute(case, transport="mem"):
         pos = [0] * len(scripts)
         ack = {"state": 0, "cfg": set(), "edb": set()}
         noise_done = False
+        noise_closed = False
         noise_conns = []
         k = 0
         while True:
@@ -95,10 +97,12 @@ async def execute(case, transport="mem"):
                 enabled.append(("release",))
             if world.timers.pending:
                 enabled.append(("timeout",))   # a timeout the server armed (wait_for) expires now: only exists if the code arms one
-            if case.get("noise") and not noise_done and any(c is not None for c in conns) and any(
-                    c is not None and c.client_closed_at is None for c in conns):
+            script_work = any(e[0] in ("open", "step") for e in enabled)
+            if case.get("noise") and not noise_done and script_work:
                 enabled.append(("noise",))
-            if not enabled or (len(enabled) == 1 and enabled[0] == ("noise",)):
+            if case.get("noise") and noise_done and not noise_closed and script_work:
+                enabled.append(("noise_close",))   # one background connection closes: its cleanup pause becomes a pending release
+            if not enabled:
                 break
             ch = choices[k] % len(enabled) if k < len(choices) else 0
             branching.append((ch, len(enabled)))
@@ -138,11 +142,15 @@ async def execute(case, transport="mem"):
                     if i % 16 == 15:
                         await world.quiesce()
                 executed.append(["noise", case["noise"]])
+            elif ev[0] == "noise_close":
+                noise_closed = True
+                await noise_conns[0].close()
+                executed.append(["noise_close"])
             else:
                 world.gate.release_one()
                 executed.append(["release"])
             await world.tick()
-        for nc in noise_conns:
+        for nc in noise_conns[(1 if noise_closed else 0):]:
             await nc.close()
         if noise_conns:
             await world.tick()
@@ -334,7 +342,7 @@ def st_case(draw):
     choices = draw(st.lists(st.integers(0, 5), max_size=30))
     case = {"scripts": scripts, "choices": choices}
     if draw(st.integers(0, 3)) == 0:
-        case["noise"] = draw(st.sampled_from([130, 200, 300]))
+        case["noise"] = draw(st.sampled_from([130, 200, 300, 1100]))
     if draw(st.integers(0, 2)) == 0:
         case["same_cfg"] = True
     return case
@@ -412,6 +420,8 @@ def shards(tier):
     out += [{"kind": "hyp", "i": i} for i in range(2 if tier == "quick" else 8)]
     out += [{"kind": "fidelity", "i": i} for i in range(1 if tier == "quick" else 4)]
     out += [{"kind": "noise", "part": i} for i in range(len(NOISE_SCRIPTS))]
+    # the same with 1100 background connections (more than a thousand other services between two connections of the one under test)
+    out += [{"kind": "noise", "part": i, "n": 1100} for i in ([2] if tier == "quick" else [2, 0])]
     out += [{"kind": "same_cfg", "part": i} for i in range(len(SAME_CFG_SCRIPTS))]
     return out
 
@@ -430,7 +440,7 @@ def run_shard(spec, seed, tier):
     noise = 0
     same_cfg = spec["kind"] == "same_cfg"
     if spec["kind"] == "noise":
-        mine, noise = [NOISE_SCRIPTS[spec["part"]]], 130
+        mine, noise = [NOISE_SCRIPTS[spec["part"]]], spec.get("n", 130)
     elif same_cfg:
         mine = [SAME_CFG_SCRIPTS[spec["part"]]]
     else:
